@@ -27,3 +27,28 @@ Theorem C01_single_route_valid : forall d s p acc egr fresh r used,
   valid_itinerary_b d s p acc egr r = true.
 Proof. exact calc_single_valid. Qed.
 Print Assumptions C01_single_route_valid.
+
+(* end to end (Proofs/Compose.v): the outcome of calculateSingle is a route or a no-routing reason — never a
+   crash, hang, out-of-bounds index or stray exception — and every route of an alternatives answer is an
+   executable itinerary for the ORIGINAL query *)
+From TrV Require Import Proofs.Compose.
+Theorem C01_outcome_is_route_or_reason : forall d s p acc egr fresh,
+  wf_data_b d = true -> wf_tables_b d p acc egr = true -> wf_params_b p = true ->
+  (exists r used, calc_single d (conn_set d s) p acc egr fresh = Ok (r, used)) \/
+  (exists reason, calc_single d (conn_set d s) p acc egr fresh = NoRouting reason).
+Proof. exact calc_single_outcome. Qed.
+Print Assumptions C01_outcome_is_route_or_reason.
+
+Theorem C01_alternatives_valid : forall d s p acc egr rs total,
+  wf_data_b d = true -> wf_tables_b d p acc egr = true -> wf_params_b p = true ->
+  alternatives d (conn_set d s) p acc egr = Ok (rs, total) ->
+  forall r, In r rs -> valid_itinerary_b d s p acc egr r = true.
+Proof. intros d s p acc egr rs total H1 H2 H3 H r Hr. exact (proj1 (alternatives_all_ok d s p acc egr rs total H1 H2 H3 H r Hr)). Qed.
+Print Assumptions C01_alternatives_valid.
+
+Theorem C01_alternatives_outcome : forall d s p acc egr,
+  wf_data_b d = true -> wf_tables_b d p acc egr = true -> wf_params_b p = true ->
+  (exists rs total, alternatives d (conn_set d s) p acc egr = Ok (rs, total)) \/
+  (exists reason, alternatives d (conn_set d s) p acc egr = NoRouting reason).
+Proof. exact alternatives_outcome. Qed.
+Print Assumptions C01_alternatives_outcome.
